@@ -244,9 +244,8 @@ def s_split(F, R):
     reader = F.fn("solvers::simplex::optimal_tableau::OptimalTableau::as_lp_solution")
     rd = set()
     if reader is not None:
-        for n in walk(reader["body"]):
-            if n.get("k") == "Lit" and n.get("lk") == "str" and str(n.get("v", "")).startswith("$"):
-                rd.add(n["v"])
+        import c04
+        rd = c04.dollar_literals(F, reader)
     R.table("generated_column_prefixes", {"writer": sorted(writer), "reader": sorted(rd)})
     R.ob("S-SPLIT", "writer=reader", writer == rd and writer == {"$p", "$m", "$sl_", "$su_", "$a_"}, "packages/rooc/src/transformers/standardizer.rs",
          "column-name prefixes generated by the standardizer/two-phase start %s must be exactly the ones the tableau read-back understands %s" % (sorted(writer), sorted(rd)), undecided=(not writer or not rd))
